@@ -47,7 +47,8 @@ mappings:
 `
 
 // scenario "mapper <cache> <size> <goroutines> <millis>": N concurrent GetMapping callers + a reloader.
-// Every answer must come entirely from configuration A or entirely from B.
+// Every answer must come entirely from configuration A or entirely from B, and once a reload has returned
+// every lookup must be answered by the configuration it installed (stale = answers that were not).
 // scenario "pipeline <millis>": parser -> event queue -> exporter goroutine, scrapers, reloader.
 func raceCase(c string) string {
 	f := strings.Fields(c)
@@ -63,7 +64,7 @@ func raceCase(c string) string {
 		stop := make(chan struct{})
 		var wg sync.WaitGroup
 		var mu sync.Mutex
-		mixed, lookups := 0, 0
+		mixed, lookups, stale := 0, 0, 0
 		for g := 0; g < n; g++ {
 			wg.Add(1)
 			go func(g int) {
@@ -110,13 +111,23 @@ func raceCase(c string) string {
 				return "ERR reload " + err.Error()
 			}
 			reloads++
+			// the reload has returned: every lookup from now on is answered by the configuration just installed
+			want := "A"
+			if reloads%2 == 1 {
+				want = "B"
+			}
+			for k := 0; k < 7; k++ {
+				if _, labels, ok := m.GetMapping(fmt.Sprintf("a.x%d", k), mapper.MetricTypeCounter); !ok || labels["cfg"] != want {
+					stale++
+				}
+			}
 			if reloads%5 == 0 {
 				m.InitFromYAMLString("mappings:\n- match: 'a..b'\n  name: x\n") // invalid: must change nothing
 			}
 		}
 		close(stop)
 		wg.Wait()
-		return fmt.Sprintf("lookups=%d mixed=%d reloads=%d", lookups, mixed, reloads)
+		return fmt.Sprintf("lookups=%d mixed=%d stale=%d reloads=%d", lookups, mixed, stale, reloads)
 	case "pipeline":
 		ms, _ := strconv.Atoi(f[1])
 		reg := prometheus.NewRegistry()
